@@ -4,7 +4,7 @@
    C06/ModelR.v (Gabor / gammatone / Fbank values over R). *)
 From Coq Require Import ZArith List Bool QArith Qround Reals.
 From Verif Require Import C06.Model C06.ModelR C06.CplxProofs C06.PeriodProofs C06.Proofs
-     C06.FbankRange C06.GaborBound C06.GammatoneBound C06.BoundExamples C06.GenTie gen.C06Index.
+     C06.FbankRange C06.GaborBound C06.GammatoneBound C06.GenTie gen.C06Index.
 Import ListNotations.
 
 (* ---- triangular / Fbank: the recipes rebuild the responses exactly ---- *)
